@@ -2,6 +2,7 @@ import PatVerif.Proofs.Recode
 import PatVerif.Proofs.EdGroup
 import PatVerif.Proofs.DoubleScalarMultRefine
 import PatVerif.Proofs.ScalarGlue
+import PatVerif.Proofs.BaseOrder
 /-!
 # C14 / C15: the scalar multiplications of the Ed25519 fork, end to end
 
@@ -124,6 +125,20 @@ theorem key_blinding_translated (x : Nat → Int) (hx : Proofs.ScScalar.IsBytes 
     ∃ ds, signedRadix16 ((Generated.ScLimbs.Scalar_SetBytes x).map Int.toNat) = some ds ∧
       Proofs.EdRepr.ReprP3 (Model.ScalarMultLit.scalarMult ds q) ((Proofs.ScHelp.leFn x 32 % Proofs.ScHelp.L) • g) :=
   Proofs.ScalarGlue.blind_mult_translated x hx q g hq
+
+/-- **the base point has order dividing L** — obtained by running the proved `ScalarMult` on the bytes of `L` in the kernel -/
+theorem base_point_order : Proofs.ScHelp.L • Proofs.ScalarBaseMultRefine.basePoint = 0 := Proofs.BaseOrder.order_B
+
+/-- **`Verify`'s group computation on the translated code, for an honest signature**: key standing for `s • B`, `S` encoding `(r + k·s) mod L`:
+`VarTimeDoubleScalarBaseMult(k, −A, S)` returns a valid point standing for `r • B`, which is what `R` stands for -/
+theorem honest_signature_passes (k S : List Nat) (hk : IsScalar k) (hS : IsScalar S) (A : Generated.EdPoints.Point) (s r : Int)
+    (hA : Proofs.EdRepr.ReprP3 A (s • Proofs.ScalarBaseMultRefine.basePoint))
+    (hSv : ((leNat S : Nat) : Int) = (r + (leNat k : Int) * s) % Proofs.ScHelp.L) :
+    ∃ kn Sn R, nonAdjacentForm k 5 = some kn ∧ nonAdjacentForm S 8 = some Sn ∧
+      Model.ScalarMultLit.doubleScalarMult Model.ScalarMultLit.basepointNafTable kn Sn
+        (Generated.EdPoints.Point_Negate Model.ScalarMultLit.zP A) = some R ∧
+      Proofs.EdRepr.ReprP3 R (r • Proofs.ScalarBaseMultRefine.basePoint) :=
+  Proofs.BaseOrder.honest_signature_point k S hk hS A s r hA hSv
 
 /-- non-vacuity of the three: the decoded generator is a valid point standing for the base point -/
 example : Proofs.EdRepr.ReprP3 Model.ScalarMultLit.generator Proofs.ScalarBaseMultRefine.basePoint :=
